@@ -580,6 +580,6 @@ func extSortStrings(fr *Frame, ins ssa.Instruction, c *ssa.CallCommon, args []Va
 	fx.s.lines = append(fx.s.lines, fmt.Sprintf("(declare-fun %s (Int) Int)", pf))
 	fx.s.assume(st.guard, fmt.Sprintf("(forall ((j Int)) (! (=> (and (<= 0 j) (< j (slen %s))) (and (<= 0 (%s j)) (< (%s j) (slen %s)) (= (select %s (elemref %s j)) (select %s (elemref %s (%s j)))))) :pattern ((select %s (elemref %s j)))))", s, pf, pf, s, hNew, s, hOld, s, pf, hNew, s))
 	// ascending order
-	fx.s.assume(st.guard, fmt.Sprintf("(forall ((i Int) (j Int)) (! (=> (and (<= 0 i) (< i j) (< j (slen %s))) (str.<= (select %s (elemref %s i)) (select %s (elemref %s j)))) :pattern ((elemref %s i) (elemref %s j))))", s, hNew, s, hNew, s, s, s))
+	fx.s.assume(st.guard, fmt.Sprintf("(forall ((i Int) (j Int)) (! (=> (and (<= 0 i) (< i j) (< j (slen %s))) (str.<= (select %s (elemref %s i)) (select %s (elemref %s j)))) :pattern ((select %s (elemref %s i)) (select %s (elemref %s j)))))", s, hNew, s, hNew, s, hNew, s, hNew, s))
 	return nil
 }
